@@ -571,6 +571,33 @@ func RunC04(d *Driver) *Report {
 			r.Violation(Case{Stream: "spec-examples", Input: ex[0], Real: got + " " + trunc(res.ParseErr+res.GoPanic, 200), Spec: ex[1] + " (docs/spec.md)"})
 		}
 	}
+	// characters of a string can be READ by index (spec.md, Strings): an index into a string is no assignment target,
+	// however the string is reached — a variable, an array element, a map value, any nesting of these; assigning the
+	// whole string at the same path is the accepted control
+	for _, tc := range [][3]string{
+		{"s := \"ab\"\n", "s", ""}, {"a := [\"ab\" \"cd\"]\n", "a[1]", ""}, {"m := {name:\"ab\"}\n", "m.name", ""}, {"m := {name:\"ab\"}\n", "m[\"name\"]", ""},
+		{"aa := [[\"ab\"] [\"cd\"]]\n", "aa[1][0]", ""}, {"am := [{k:\"ab\"}]\n", "am[0].k", ""}, {"ma := {k:[\"ab\"]}\n", "ma.k[0]", ""},
+		{"mm := {k:{j:\"ab\"}}\n", "mm.k.j", ""}, {"mm := {k:{j:\"ab\"}}\n", "mm[\"k\"][\"j\"]", ""}, {"i := 0\na := [\"ab\" \"cd\"]\n", "a[i]", "print i\n"},
+		{"func f p:[]string\n", "    p[0]", "end\nf [\"ab\"]\n"}, {"func f p:string...\n", "    p[0]", "end\nf \"ab\"\n"},
+	} {
+		root := strings.TrimSpace(tc[1])
+		root = root[:strings.IndexAny(root+"[", "[.")]
+		for _, idx := range []string{"[0]", "[-1]", "[1]"} {
+			for k, src := range []string{tc[0] + tc[1] + idx + " = \"x\"\n" + tc[2] + useIf(tc[2] == "", "print "+root+"\n"), tc[0] + tc[1] + " = \"x\"\n" + tc[2] + useIf(tc[2] == "", "print "+root+"\n")} {
+				nprog++
+				r.Count("string-element-target:"+src, true)
+				_, perr, pp := ParseSrc(src)
+				switch {
+				case pp != "":
+					r.Violation(Case{Stream: "string-element-target", Input: src, Real: "crash " + trunc(pp, 300), Spec: "no crash"})
+				case k == 0 && perr == "":
+					r.Violation(Case{Stream: "string-element-target", Input: src, Real: "accept", Spec: "reject (characters of a string can be read by index, docs/spec.md Strings; a string is not changed in place)"})
+				case k == 1 && perr != "":
+					r.Violation(Case{Stream: "string-element-target", Input: src, Real: "reject " + trunc(perr, 300), Spec: "accept (a string variable, element or map value is assignable)"})
+				}
+			}
+		}
+	}
 	// a call of a function without a result is not a value: every cell of the type matrix (every operator with
 	// every kind of other operand, every position that takes a value) that uses one is rejected — a user procedure
 	// with and without parameter, and a built-in procedure
@@ -748,4 +775,11 @@ func RunC04(d *Driver) *Report {
 	r.Rule += "; every cell of the type matrix that uses a call WITHOUT a value (user procedures with and without parameter, built-in procedures) as operand, element, argument, condition or range must be rejected; range headers with two and three operands of every variable type are accepted iff every operand is a num"
 	r.DriverCalls = d.N
 	return r
+}
+
+func useIf(c bool, s string) string {
+	if c {
+		return s
+	}
+	return ""
 }
